@@ -147,11 +147,6 @@ impl TyBasic {
         }
     }
 
-    /// Type is a tuple, with specified or unspecified member types.
-    pub(crate) fn is_tuple(&self) -> bool {
-        matches!(self, TyBasic::Tuple(_))
-    }
-
     /// Type is a list, with specified or unspecified member types.
     pub(crate) fn is_list(&self) -> bool {
         self.as_name() == Some("list")
